@@ -581,3 +581,72 @@ pub fn run_lspx_one(args: &[String]) {
         json!({"verdict": r.verdict, "trace": r.trace, "observation": r.observation, "schedule": r.choices, "note": jstr("replayed without the explorer")})
     );
 }
+
+// ---------------------------------------------------------------------------------------------------------------
+// C14: which files does the real language server load for an entry document? (observed without hooks: the backend
+// publishes diagnostics under the URI of every dependency it resolved and parsed)
+// ---------------------------------------------------------------------------------------------------------------
+
+/// Open `entry` (an absolute path) in a fresh real server and return the URIs of all dependency documents it published for.
+pub fn lsp_resolved_files(entry: &str) -> Vec<String> {
+    let text = std::fs::read_to_string(entry).unwrap_or_default();
+    let mut w = World::new();
+    w.initialize();
+    let uri = format!("file://{entry}");
+    w.notify(
+        "textDocument/didOpen",
+        json!({"textDocument": {"uri": uri, "languageId": "incan", "version": 1, "text": text}}),
+        "open",
+    );
+    w.settle();
+    let mut out: Vec<String> = w
+        .published
+        .iter()
+        .filter_map(|p| p["uri"].as_str().map(|s| s.to_string()))
+        .filter(|u| *u != uri)
+        .collect();
+    out.sort();
+    out.dedup();
+    out
+}
+
+/// `ivh resolve` – JSON lines on stdin: {"id":..,"entry":"/abs/path/main.incn"}; output: what the CLI's collect_modules
+/// loaded (by marker found in the loaded sources) and what the language server resolved (by published URI).
+pub fn run_resolve(_args: &[String]) {
+    let stdin = std::io::stdin();
+    let stdout = std::io::stdout();
+    let mut out = stdout.lock();
+    for line in std::io::BufRead::lines(stdin.lock()) {
+        let Ok(line) = line else { break };
+        if line.trim().is_empty() {
+            continue;
+        }
+        let v: Value = serde_json::from_str(&line).expect("json");
+        let entry = v["entry"].as_str().unwrap_or("").to_string();
+        let cli = match crate::util::catch(|| incan::cli::commands::collect_modules(&entry)) {
+            Ok(Ok(mods)) => {
+                let mut ids: Vec<String> = Vec::new();
+                // the entry is the last module
+                let n = mods.len();
+                for m in mods.iter().take(n.saturating_sub(1)) {
+                    if let Some(i) = m.source.find("marker_") {
+                        let id: String = m.source[i..].chars().take_while(|c| c.is_ascii_alphanumeric() || *c == '_').collect();
+                        ids.push(id);
+                    } else {
+                        ids.push("<no marker>".to_string());
+                    }
+                }
+                ids.sort();
+                json!({"ok": true, "markers": ids})
+            }
+            Ok(Err(e)) => json!({"ok": false, "error": e.message.chars().take(300).collect::<String>()}),
+            Err(m) => json!({"ok": false, "panic": m}),
+        };
+        let lsp = match crate::util::catch(|| lsp_resolved_files(&entry)) {
+            Ok(u) => json!({"ok": true, "uris": u}),
+            Err(m) => json!({"ok": false, "panic": m}),
+        };
+        let _ = writeln!(out, "{}", json!({"id": v["id"], "cli": cli, "lsp": lsp}));
+        let _ = out.flush();
+    }
+}
